@@ -217,6 +217,9 @@ func (server *Server) ZRange(conn *redis.Conn, key string, start int, stop int, 
 	if err != nil {
 		return nil, err
 	}
+	if !db.HasRecord(key) {
+		return redis.NewArrayMessage(), nil
+	}
 	_, zset, err := db.GetZSetRecord(key)
 	if err != nil {
 		return nil, err
@@ -237,6 +240,9 @@ func (server *Server) ZRangeByScore(conn *redis.Conn, key string, start float64,
 	db, err := server.GetDatabase(conn.Database())
 	if err != nil {
 		return nil, err
+	}
+	if !db.HasRecord(key) {
+		return redis.NewArrayMessage(), nil
 	}
 	_, zset, err := db.GetZSetRecord(key)
 	if err != nil {
@@ -259,6 +265,9 @@ func (server *Server) ZRem(conn *redis.Conn, key string, members []string) (*red
 	if err != nil {
 		return nil, err
 	}
+	if !db.HasRecord(key) {
+		return redis.NewIntegerMessage(0), nil
+	}
 	_, zset, err := db.GetZSetRecord(key)
 	if err != nil {
 		return nil, err
@@ -270,6 +279,9 @@ func (server *Server) ZScore(conn *redis.Conn, key string, member string) (*redi
 	db, err := server.GetDatabase(conn.Database())
 	if err != nil {
 		return nil, err
+	}
+	if !db.HasRecord(key) {
+		return redis.NewNilMessage(), nil
 	}
 	_, zset, err := db.GetZSetRecord(key)
 	if err != nil {
